@@ -371,6 +371,8 @@ pub fn run(tier: Tier) -> i32 {
         ("leak/root-margin", r##"<svg margin="3"><rect wh="10"/></svg>"##, None),
         ("leak/text-with-children", r##"<svg><rect id="a" wh="10"/><text x="1" y="2" surround="#a" margin="1">a<tspan>b</tspan></text></svg>"##, None),
         ("leak/margin-on-non-graphics", r##"<svg><foreignObject margin="2"/><text x="1" y="2"><tspan margin="1">t</tspan></text><g margin="4"><rect wh="3"/></g></svg>"##, None),
+        ("leak/paint-servers-and-filters", r##"<svg><rect id="a" wh="10"/><linearGradient id="lg" margin="3"><stop offset="0" margin="1"/></linearGradient><radialGradient id="rg" inside="#a"/><filter id="f" surround="#a" margin="1"><feGaussianBlur stdDeviation="1" margin="2"/></filter></svg>"##, None),
+        ("leak/descriptive-and-animation", r##"<svg><rect id="a" wh="10"/><title inside="#a">t</title><desc margin="2">d</desc><rect wh="5"><animate attributeName="x" to="5" margin="1"/><set attributeName="y" to="1" surround="#a"></set></rect><style margin="1">rect {fill:red}</style></svg>"##, None),
         ("leak/image-line-text", r##"<svg><rect id="a" wh="10"/><image href="i.png" surround="#a"/><line xy1="0" xy2="5" surround="#a" margin="1"/><text inside="#a" text="t"/></svg>"##, None),
         // a text reference is where it is written (text-loc moves it by the text offset)
         ("text-ref/text-loc", r##"<svg><text id="t" xy="20 20" text-loc="tl">hi</text><rect id="x" surround="#t" margin="0.5"/></svg>"##, Some((18.5, 18.5, 19.5, 19.5))),
